@@ -707,6 +707,9 @@ class Series:
     def _nn(self):
         return [v for v in self._v if not _isnanv(v)]
 
+    def count(self):
+        return len(self._nn())
+
     def mean(self):
         return mnp._mean(self._nn())
 
